@@ -21,4 +21,6 @@ def bounded(ctx):
 
 # T1 (PyVC): New.append - the single place where specificity is counted - adds exactly the statement's formula for every item type,
 # value and context (178 paths), and appends exactly one item or nothing.
-T1 = [('contracts.selector', None)]
+T1 = [('contracts.selector', None), ('contracts.selectorlist', None)]
+# (selectorlist: SelectorList.appendSelector - the new selector is last, earlier entries of the same serialised text are gone, the others keep their
+#  order; a read-only list or a refused text changes nothing - for lists of any length)
